@@ -24,7 +24,7 @@ claimed = {
    note="The environment model of (a) (which transport calls are possible when) is stated in c05_driver.go and DESIGN.md; schedules outside it are not explored. Real-goroutine interleavings in (b) are sampled, widened by vhook delays. Three genuine defects found by (a) were repaired (fix: commits in known_findings.json).",
    technique="controlled-scheduler execution of the real FSM with an online trace monitor (edges, causes, notification chain) + e2e history monitor under the race detector"),
  "C06": dict(level=E,
-   text="40 (quick) / 1500 (thorough) concurrent request/reply histories per run on real connections (1..64 senders) against a scripted peer that replies now/late/permuted/twice/never, rejects, collides system bytes with primaries and control responses, sends undecodable and unsolicited messages, with random caller cancellation, caller deadlines shorter than T3 and link drops; call/return events and the peer's read/write logs are joined by unique tokens and scanned offline for ownership (own reply only), exactly-once delivery to handlers in arrival order, outcome class, T3 lower bound and system-bytes uniqueness; plus slow-write scenarios (the peer stops reading mid-frame, or the send queues behind such a write) in which the T3 error must come no earlier than T3 after the instant the write returned (afterWrite hook), and a sequential sender next to an every-interval linktest with a peer-side monitor of the open set (system bytes unique across data and control transactions). Race build." + HELD,
+   text="40 (quick) / 1500 (thorough) concurrent request/reply histories per run on real connections (1..64 senders) against a scripted peer that replies now/late/permuted/twice/never, rejects, collides system bytes with primaries and control responses, sends undecodable and unsolicited messages (primaries, orphan secondaries, orphan SxF0 aborts), with random caller cancellation, caller deadlines shorter than T3 and link drops; call/return events and the peer's read/write logs are joined by unique tokens and scanned offline for ownership (own reply only), exactly-once delivery to handlers in arrival order, outcome class, T3 lower bound and system-bytes uniqueness; plus slow-write scenarios (the peer stops reading mid-frame, or the send queues behind such a write) in which the T3 error must come no earlier than T3 after the instant the write returned (afterWrite hook), and a sequential sender next to an every-interval linktest with a peer-side monitor of the open set (system bytes unique across data and control transactions). Race build." + HELD,
    note="Unique tokens make the history unambiguous, so the scan is exact for the histories produced; interleavings are sampled (vhook delays at send.afterRegister/afterWrite, recv.beforeDispatch). The genuine (nil,nil) defect it found is repaired (fix: commit).",
    technique="offline history checker over call/return + peer frame logs (ownership, exactly-once, order) under the race detector with delay injection"),
  "C07": dict(level=F,
@@ -36,11 +36,11 @@ claimed = {
    note="Trusts the responder table in c08Model (from the property text / E37). Two scheduling-dependent answers are accepted either way and documented (duplicate Select.rsp racing transaction close; S9F1 gated at write time).",
    technique="reference-model monitor: independent E37 responder FSM vs barrier-fenced outbound frame log of a real connection"),
  "C09": dict(level=F,
-   text="40 (quick) / 480 (thorough) multi-generation histories: each generation ended by one of the 7 drop kinds (peer FIN, RST, stall+write timeout, Close+reopen, linktest failure, T7, T8 - all kinds in every shard) while 8 senders keep sending sync/async/W-bit messages with unique tokens; every frame read by generation G's peer must belong to a call that was open while G existed, replies must carry the tag of the generation that read the primary, waiters must be released (never T3=30 s), and the previous generation's open system bytes replayed by the next peer must not complete anything; senders stalled right after their write (hook) are followed across the drop, and a primary observed on an older generation's peer log while its caller is still waiting is a dead-generation waiter. A SECS-I phase parks a sender behind the line engine's inline handler (contention yield) and ends the generation by Close: the sender must be released with the connection-closed error; its HSMS-SS counterpart wedges the receive path in a data handler while a W-bit sender waits and ends the generation by Close or by a linktest failure; and fire-and-forget senders parked on a full 2-slot send queue (peer not reading, receive loop parked on the same queue) must be released when the generation's teardown starts; a waiter on a generation that Close ends while the socket accepts no write (farewell write blocked) must come back within the farewell's own bound; senders queued on the write lock when Close ends the generation must get the connection-closed error. Race build." + HELD,
+   text="40 (quick) / 480 (thorough) multi-generation histories: each generation ended by one of the 7 drop kinds (peer FIN, RST, stall+write timeout, Close+reopen, linktest failure, T7, T8 - all kinds in every shard) while 8 senders keep sending sync/async/W-bit messages with unique tokens; every frame read by generation G's peer must belong to a call that was open while G existed, replies must carry the tag of the generation that read the primary, waiters must be released (never T3=30 s), and the previous generation's open system bytes replayed by the next peer must not complete anything; senders stalled right after their write (hook) are followed across the drop, and a primary observed on an older generation's peer log while its caller is still waiting is a dead-generation waiter. A SECS-I phase parks a sender behind the line engine's inline handler (contention yield) and ends the generation by Close: the sender must be released with the connection-closed error; its HSMS-SS counterpart wedges the receive path in a data handler while a W-bit sender waits and ends the generation by Close or by a linktest failure; and fire-and-forget senders parked on a full 2-slot send queue (peer not reading, receive loop parked on the same queue) must be released when the generation's teardown starts; a waiter on a generation that Close ends while the socket accepts no write (farewell write blocked) must come back within the farewell's own bound; senders queued on the write lock when Close ends the generation must get the connection-closed error; a multi-block SECS-I message whose first block arrived on one TCP generation must not be completed by blocks sent on the next (neither delivered to handlers nor taken as the reply to a send made there; both roles). Race build." + HELD,
    note="The hsmsss phase carries the generation-tag oracle; the SECS-I phase covers only the parked-waiter release (SECS-I line faults are C17/C18). The drop instant relative to each send is sampled, not enumerated.",
    technique="generation-tagged token monitor over per-generation peer logs under the race detector with delay injection"),
  "C10": dict(level=E,
-   text="360 (quick) / 4000 (thorough) hsmsss lifecycle programs plus 96 / 2000 SECS-I programs against a raw TCP peer , a refused-Open-while-connect-pending scenario , Close on a socket whose writes block (write timeout disabled / 30 s / 200 ms x idle / sender blocked) , Close while a dial is in flight with nothing coming back (both transports, cold open and reconnect) and Close right after the reconnect loop published the next generation (loop parked at a hook): 2..5 goroutines of Open/Close/send/UpdateConfig operations concurrent with a hostile peer script (serve, connect-only, drop, reset, stall, refuse, connect inside Close through gated Accept / delayed dial), then Close twice and leak meters (goroutine dump filtered to library frames, Close() on every harness-owned socket/listener, /proc fd count, no dial/listen after Close), double-Open guard, reopen + round trip. Race build; a hang is caught by the shard watchdog with a goroutine dump." + HELD,
+   text="360 (quick) / 4000 (thorough) hsmsss lifecycle programs plus 96 / 2000 SECS-I programs against a raw TCP peer , a refused-Open-while-connect-pending scenario , Close on a socket whose writes block (write timeout disabled / 30 s / 200 ms x idle / sender blocked) , Close while a dial is in flight with nothing coming back (both transports, cold open and reconnect) Close right after the reconnect loop published the next generation (loop parked at a hook) and Close while two teardown phases run into their bound at once (a data handler and an async-send-error callback that both return 20 s later, close timeout 8 s: one close timeout, not two): 2..5 goroutines of Open/Close/send/UpdateConfig operations concurrent with a hostile peer script (serve, connect-only, drop, reset, stall, refuse, connect inside Close through gated Accept / delayed dial), then Close twice and leak meters (goroutine dump filtered to library frames, Close() on every harness-owned socket/listener, /proc fd count, no dial/listen after Close), double-Open guard, reopen + round trip. Race build; a hang is caught by the shard watchdog with a goroutine dump." + HELD,
    note="hsmsss and secs1 transports; data handlers always return (the property's premise): immediately, after 5-80 ms, or after replying and sending from inside the handler. Close latency bound is close timeout + 5 s. ErrCloseTimeout as a return value is counted, not judged.",
    technique="randomized lifecycle programs with leak meters (goroutines, sockets, fds), latency bound and race detector"),
  "C20": dict(level=E,
@@ -52,11 +52,11 @@ claimed = {
    note="Trusts harness/ref/e37 and ref/e5 as the reading of E37/E5. Known finding: a valid message whose frame exceeds 2^24-1 bytes cannot be decoded by the library itself (documented limitation M6) - reported as KNOWN-FINDING.",
    technique="differential runtime monitor: independent E37 frame model vs constructors/ToBytes/decoders; socket-byte capture by a raw peer vs ToBytes"),
  "C04": dict(level=E,
-   text="Decode half: ~390k (quick) / 6.8M (thorough) byte strings to the three frame decode entry points (length-field x size x PType x all 256 STypes x 14 body classes, truncations, mutations, 16 MiB cap-boundary inputs) judged by the reference acceptor; lazy body decode shared across holders incl. barrier-released concurrent first calls under the race detector. Stream half: a byte-level peer feeds a real connection with valid streams cut at every position of the first 14 bytes, random k-way splits and 1-byte dribble, idle gaps of 4xT8, in-frame stalls of 6xT8 at 10 offsets (also with local writes going out while the receiver sits in the stalled frame), slow-but-steady delivery, a short gap followed by a long one (each inside T8, their sum beyond it), 8 adversarial length fields with an allocation meter, and frames whose length field is cap-1 and exactly cap on a live link." + HELD,
+   text="Decode half: ~390k (quick) / 6.8M (thorough) byte strings to the three frame decode entry points (length-field x size x PType x all 256 STypes x 14 body classes, truncations, mutations, 16 MiB cap-boundary inputs) judged by the reference acceptor; lazy body decode shared across holders incl. barrier-released concurrent first calls under the race detector. Stream half: a byte-level peer feeds a real connection with valid streams cut at every position of the first 14 bytes, random k-way splits and 1-byte dribble, idle gaps of 4xT8, in-frame stalls of 6xT8 at 10 offsets (also with local writes going out while the receiver sits in the stalled frame), slow-but-steady delivery, a short gap followed by a long one (each inside T8, their sum beyond it), 8 adversarial length fields with an allocation meter, too-short length fields (0,1,2,4,9) followed by that many bytes and a valid frame, and frames whose length field is cap-1 and exactly cap on a live link." + HELD,
    note="Timing clauses decided one-sidedly: idle gaps and stalls are many multiples of T8; 'slow but steady' and segmentation cases carry a measured max-gap premise and are discarded when the harness itself stalled.",
    technique="differential runtime monitor (reference frame acceptor) + segmenting/stalling raw peer with delivery oracle and allocation meter; race detector"),
  "C11": dict(level=F,
-   text="368 (quick) / ~2600 (thorough: both TCP roles for every role-agnostic fault, and every fault once more with delays injected at the recovery machinery's suspension points) single link faults, each on a fresh real connection: FIN and RST cuts after exactly k bytes read/written for every k of the 14-byte prefix of every exchange (select both ways, data primary/reply/peer primary, linktest both ways) plus body offsets; stalls covered by T6/T7/T8/write timeout/linktest (the linktest stall also with local traffic going out; the write-timeout stall also for a control frame on a socket that takes no bytes), each to be ended by the covering timer and not by a longer one, the T8 stall placed after every K=1..16 bytes of a frame; Select.rsp status 2..255; 0..8 refused dials / failed listens over a back-off configuration grid, also with a redundant (refused) Open in the middle of the outage. Recovery to Selected + round trip within 6 connection opportunities; requested reconnect delays (hook) vs the reference sequence; re-dial gaps (sound direction); Reconnects(); no dial after Close. Pure back-off function over a grid incl. overflow/Inf/NaN." + HELD,
+   text="368 (quick) / ~2600 (thorough: both TCP roles for every role-agnostic fault, and every fault once more with delays injected at the recovery machinery's suspension points) single link faults, each on a fresh real connection: FIN and RST cuts after exactly k bytes read/written for every k of the 14-byte prefix of every exchange (select both ways, data primary/reply/peer primary, linktest both ways) plus body offsets; stalls covered by T6/T7/T8/write timeout/linktest (the linktest stall also with local traffic going out; the write-timeout stall also for a control frame on a socket that takes no bytes, and with every call carrying a deadline shorter than the write timeout), each to be ended by the covering timer and not by a longer one, the T8 stall placed after every K=1..16 bytes of a frame; Select.rsp status 2..255; 0..8 refused dials / failed listens over a back-off configuration grid, also with a redundant (refused) Open in the middle of the outage. Recovery to Selected + round trip within 6 connection opportunities; requested reconnect delays (hook) vs the reference sequence; re-dial gaps (sound direction); Reconnects(); no dial after Close. Pure back-off function over a grid incl. overflow/Inf/NaN." + HELD,
    note="'Eventually' is decided as bounded progress (6 opportunities). hsmsss transport; SECS-I line cuts are exercised by C18's middlebox, not here.",
    technique="fault enumeration by a byte-exact cutting/stalling peer + hook-reported back-off delays vs reference sequence"),
  "C12": dict(level=E,
@@ -80,15 +80,15 @@ claimed = {
    note="Where the docs explicitly document an error instead of a clamp both are accepted (never another value). Typed-nil item pointers are outside the statement (noted, not judged). Wire half: hsmsss.",
    technique="reference clamp model + recover-wrapped constructor fuzzing; wire observer (scripted peer log) for refused sends"),
  "C17": dict(level=E,
-   text="Outbound: a real secs1 connection transmits ~7k (quick) / 75k (thorough) messages (every body length 0..500/1000 plus block boundaries and 10-100 KiB bodies, every stream/function/W, both roles, device ids 0/1/0x7FFF, NAK-then-retransmit) to an independent SEMI E4 reference peer over loopback TCP; every transmission must parse as blocks 1..N of <=244 bytes with the right E-bit, device id, R-bit, header fields and 16-bit checksum, bodies concatenating to the SECS-II encoding. Inbound: 1024 / 24000 block sequences (one fault from 18 classes per message, incl. blocks paced just inside T4 and foreign blocks inserted inside an open message, each followed by a clean sentinel) fed by the reference peer; handler deliveries must equal those of the reference E4 receiver model, the link must stay Selected, and every delivered message, retained by the handler, must still read the same at the end. Race build." + HELD,
+   text="Outbound: a real secs1 connection transmits ~7k (quick) / 75k (thorough) messages (every body length 0..500/1000 plus block boundaries and 10-100 KiB bodies, every stream/function/W, both roles, device ids 0/1/0x7FFF, NAK-then-retransmit) to an independent SEMI E4 reference peer over loopback TCP; every transmission must parse as blocks 1..N of <=244 bytes with the right E-bit, device id, R-bit, header fields and 16-bit checksum, bodies concatenating to the SECS-II encoding. Inbound: 1024 / 24000 block sequences (one fault from 19 classes per message, incl. a retransmitted first block after a T4 gap, incl. blocks paced just inside T4 and foreign blocks inserted inside an open message, each followed by a clean sentinel) fed by the reference peer; handler deliveries must equal those of the reference E4 receiver model, the link must stay Selected, and every delivered message, retained by the handler, must still read the same at the end. Race build." + HELD,
    note="Trusts harness/ref/e4 as the reading of SEMI E4 (block format, 9.4.4 receiver algorithm, handshake). 'Within T4'/'expired' rest on measured gaps (premise; forked model, discarded only when the branches disagree).",
    technique="reference-implementation peer: independent E4 codec + receiver model on the other end of a real secs1 link; delivery/byte oracle under the race detector"),
  "C18": dict(level=F,
-   text="Two real secs1 connections (host, equipment) joined by a fault-injecting middlebox that parses the character stream with the reference E4 model and applies 314 (quick) / 3482 (thorough) fault plans: one flipped character at EVERY position of a block transmission, dropped/truncated blocks, every handshake character dropped or replaced, delays beyond T1/T2, persistent faults exhausting the retry limit, forced contention, random compositions; retry limits 0..3, 1-4 block messages, unique tokens. Offline scan of the recorded history: exactly-once intact in-order delivery of every successful send, attempts <= retry limit + 1, master-first contention resolution, no hang (watchdog + dump). Race build." + HELD,
+   text="Two real secs1 connections (host, equipment) joined by a fault-injecting middlebox that parses the character stream with the reference E4 model and applies 324 (quick) / ~3490 (thorough) fault plans: one flipped character at EVERY position of a block transmission, dropped/truncated blocks, every handshake character dropped or replaced, delays beyond T1/T2, persistent faults exhausting the retry limit, a length character corrupted downwards on a character-paced line (the rest of the block, containing an ENQ and a valid block image, follows inside T1), forced contention, random compositions; retry limits 0..3, 1-4 block messages, unique tokens. Offline scan of the recorded history: exactly-once intact in-order delivery of every successful send, attempts <= retry limit + 1, master-first contention resolution, no hang (watchdog + dump). Race build." + HELD,
    note="Two genuine defects found: a block ACKed during link teardown whose message was then dropped is repaired (fix: commit); stale control characters consumed as handshake answers after a late grant remains a known finding (not a small repair). Overlaps of simultaneous sends are sampled; liveness is bounded (45 s send watchdog).",
    technique="fault-injecting middlebox between two real endpoints + offline exactly-once/order/retry-bound checker over the recorded line history"),
  "C19": dict(level=E,
-   text="Pure half: the two linktest decision functions (verif export) vs a reference written from the documented rules, exhaustive over a small ordered domain, and the whole failure-accounting loop folded over ALL ~300k (quick) / ~19M (thorough) observation histories of length <=6/8 x threshold 1..4 x suppression on/off, plus two reducer-independent invariants. E2E half: scripted peers (silent, answering, alive-but-not-answering with suppression on/off, chatty, withheld reply, silent peer while the local side keeps sending, life shown by a frame whose inline handler outlasts T6, life shown by frames the local side answers, a dead peer right after a slow transaction and after a rejected probe, with upper bounds on the drop time; T6 longer than the interval with a slowly answering and a silent peer) on real connections; probe counts seen by the peer, still-connected checks, sound lower bound on the drop time, ControlMetrics vs peer counts." + HELD,
+   text="Pure half: the two linktest decision functions (verif export) vs a reference written from the documented rules, exhaustive over a small ordered domain, and the whole failure-accounting loop folded over ALL ~300k (quick) / ~19M (thorough) observation histories of length <=6/8 x threshold 1..4 x suppression on/off, plus two reducer-independent invariants. E2E half: scripted peers (silent, answering, alive-but-not-answering with suppression on/off, chatty, withheld reply, silent peer while the local side keeps sending, life shown by a frame whose inline handler outlasts T6, life shown by frames the local side answers, a dead peer right after a slow transaction, after a rejected probe and on the connection that followed a W-bit send that failed at the socket, with upper bounds on the drop time; T6 longer than the interval with a slowly answering and a silent peer) on real connections; probe counts seen by the peer, still-connected checks, sound lower bound on the drop time, ControlMetrics vs peer counts." + HELD,
    note="E2E timing is decided one-sidedly (counts and sound lower bounds); the chatty scenario needs a measured premise and is discarded otherwise.",
    technique="exhaustive reference-fold comparison of the real reducer + scripted-peer scenario monitors under the race detector"),
 }
